@@ -1515,6 +1515,20 @@ class Tr:
                     return "%s do %s <- (if %s then (%s) else (%s)) ;\n  %s" % (" ".join(bc), tup, ac, s1, s2, rest(env))
                 return "%s do %s <- (if %s then (%s) else (%s)) ;\n  let '%s := %s in\n  %s" % (
                     " ".join(bc), w, ac, s1, s2, tup, w, rest(env))
+            if e[0] == "while" and e[1][0] == "bin" and e[1][1] == ">" and e[1][2][0] == "var" \
+                    and e[1][3] == ("num", 0, None) and e[2][2] is None and e[2][1] \
+                    and e[2][1][0] == ("assign", e[1][2], "-", ("num", 1, None)):
+                # `while i > 0 { i -= 1; BODY }`: BODY runs for i = i0-1 down to 0 (i is 0 afterwards)
+                iv = e[1][2][1]
+                inner = ("block", e[2][1][1:], None)
+                if iv in self.assigned(inner):
+                    raise Unsupported("loop counter assigned in the body")
+                lo = env[iv][0]
+                env1 = dict(env)
+                env1["__cnt_" + iv] = (lo, "usize")
+                loop = ("fordown", iv, ("var", "__cnt_" + iv), None, inner)
+                envafter_fix = ("assign", ("var", iv), None, ("num", 0, None))
+                return self.stmts(f, [("expr", loop), envafter_fix] + ss[i + 1:], 0, env1, fin, retty)
             if e[0] == "while":
                 c, body = e[1], e[2]
                 ok = (c[0] == "bin" and c[1] == "<" and c[2][0] == "var" and body[2] is None and body[1]
@@ -1831,6 +1845,10 @@ TARGETS = [
     ("src/bits.rs", UINT_IMPL, "not", "U.not", "g_not", "uint"),
     ("src/bits.rs", UINT_IMPL, "count_ones", "U.count_ones", "g_count_ones", "uint"),
     ("src/bits.rs", UINT_IMPL, "count_zeros", "U.count_zeros", "g_count_zeros", "uint"),
+    ("src/bits.rs", UINT_IMPL, "leading_zeros", "U.leading_zeros", "g_leading_zeros", "uint"),
+    ("src/bits.rs", UINT_IMPL, "leading_ones", "U.leading_ones", "g_leading_ones", "uint"),
+    ("src/bits.rs", UINT_IMPL, "bit_len", "U.bit_len", "g_bit_len", "uint"),
+    ("src/bits.rs", UINT_IMPL, "byte_len", "U.byte_len", "g_byte_len", "uint"),
     ("src/bits.rs", UINT_IMPL, "overflowing_shl", "U.overflowing_shl", "g_overflowing_shl", "uint"),
     ("src/bits.rs", UINT_IMPL, "overflowing_shr", "U.overflowing_shr", "g_overflowing_shr", "uint"),
     ("src/bits.rs", UINT_IMPL, "checked_shl", "U.checked_shl", "g_checked_shl", "uint"),
